@@ -21,6 +21,7 @@ open Comdex
 def vm : Nat := 0
 def cm : Nat := 1
 def am : Nat := 2
+def em : Nat := 3          -- the x/esm module account (emergency redemption pool)
 
 structure Product where
   id          : Nat
@@ -88,12 +89,14 @@ structure State where
   nextStable : Nat
   length     : Int                   -- GetLengthOfVault
   unsolicited : Nat → Int            -- ghost: coins sent to the vault module account by plain bank sends
-  extSupply  : Nat → Int             -- ghost: supply of a denom minted outside the vault module
+  extSupply  : Nat → Int             -- ghost: supply of a denom not backed by a vault record: minted outside the vault
+                                     -- module, or moved from a redeemed vault to the emergency-redemption register
+  redeem     : Nat → Nat → Int       -- app → denom ↦ debt registered for emergency redemption (x/esm AssetToAmount)
 
 def State.init : State :=
   { bal := fun _ _ => 0, supply := fun _ => 0, vaults := [], stables := [], locked := [],
     coll := fun _ => 0, minted := fun _ => 0, vaultIds := fun _ => [], nextVault := 0, nextStable := 0,
-    length := 0, unsolicited := fun _ => 0, extSupply := fun _ => 0 }
+    length := 0, unsolicited := fun _ => 0, extSupply := fun _ => 0, redeem := fun _ _ => 0 }
 
 /-! ### bank -/
 
@@ -255,6 +258,10 @@ inductive Msg where
   | seize (vaultId : Nat)                        -- liquidationsV2 hand-over to auction custody
   | settle (vaultId : Nat)                       -- the auction of a seized vault closes (auctionsV2 bid.go:188-190)
   | settle1 (vaultId : Nat)                      -- first-generation auction closes (x/auction dutch.go CloseDutchAuction)
+  | esmVault (vaultId : Nat)                     -- emergency shutdown, after cool-off: one vault moved to the redemption pool (esm.go:356-466)
+  | esmStable (stableId : Nat)                   -- the same for a stable-mint vault (esm.go:468-575)
+  | esmCollector (app d : Nat) (x : Int)         -- the collector's net fees of a debt asset are burnt against the register (esm.go:267-315)
+  | esmBurn (from_ app d : Nat) (x : Int)        -- MsgCollateralRedemption: a holder burns debt coins against the register (keeper.go:182-268)
   deriving Repr
 
 def create (s : State) (p : Product) (e : Env) (from_ app prod : Nat) (amtIn amtOut : Int) : Option State :=
@@ -477,6 +484,57 @@ def settle1 (s : State) (p : Product) (vaultId : Nat) : Option State :=
                   coll := upd1 s.coll l.product (s.coll l.product - l.amountIn),
                   minted := upd1 s.minted l.product (s.minted l.product - l.amountOut) }
 
+/-! ### emergency shutdown (x/esm): after the cool-off period the begin-blocker moves every vault of the app into the
+redemption pool, then holders burn debt coins against the registered debt -/
+
+/-- `SetUpCollateralRedemptionForVault`, one vault (esm.go:363-462): the recorded collateral goes to the esm module account,
+the vault is deleted, the product totals are reduced by collateral and PRINCIPAL (accrued interest and closing fee are
+dropped), the counter falls by one, and the principal is registered as debt open for redemption (no coin is burnt:
+the supply stays, its backing moves from the vault record to the register). -/
+def esmVault (s : State) (p : Product) (e : Env) (vaultId : Nat) : Option State :=
+  match findVault s vaultId with
+  | none => none
+  | some v =>
+    if v.product ≠ p.id ∨ ¬ (e.esm = true ∧ e.pastCoolOff = true) then none else
+    (runBank s [.sendPos vm em p.denomIn v.amountIn]).map fun s1 =>
+      { s1 with vaults := delVault s1.vaults v.id, length := s1.length - 1,
+                coll := upd1 s1.coll p.id (s1.coll p.id - v.amountIn),
+                minted := upd1 s1.minted p.id (s1.minted p.id - v.amountOut),
+                vaultIds := updL s1.vaultIds p.id ((s1.vaultIds p.id).erase v.id),
+                extSupply := upd1 s1.extSupply p.denomOut (s1.extSupply p.denomOut + v.amountOut),
+                redeem := upd2 s1.redeem p.app p.denomOut (s1.redeem p.app p.denomOut + v.amountOut) }
+
+/-- `SetUpCollateralRedemptionForStableVault`, one stable-mint vault (esm.go:476-570): collateral to the esm account,
+totals reduced, id removed from the product's list, principal registered — but the stable-mint vault RECORD IS NOT
+DELETED (there is no delete for stable-mint vaults at all): it keeps showing collateral that has left custody
+(recorded finding D29). -/
+def esmStable (s : State) (p : Product) (e : Env) (stableId : Nat) : Option State :=
+  match findStable s stableId with
+  | none => none
+  | some r =>
+    if r.product ≠ p.id ∨ ¬ (e.esm = true ∧ e.pastCoolOff = true) then none else
+    (runBank s [.sendPos vm em p.denomIn r.amountIn]).map fun s1 =>
+      { s1 with coll := upd1 s1.coll p.id (s1.coll p.id - r.amountIn),
+                minted := upd1 s1.minted p.id (s1.minted p.id - r.amountOut),
+                vaultIds := updL s1.vaultIds p.id ((s1.vaultIds p.id).erase r.id),
+                redeem := upd2 s1.redeem p.app p.denomOut (s1.redeem p.app p.denomOut + r.amountOut) }
+
+/-- `SetUpDebtRedemptionForCollector`: the collector's net fees `x` of debt asset `d` are burnt and taken off the register -/
+def esmCollector (s : State) (app d : Nat) (x : Int) : Option State :=
+  if x ≤ 0 ∨ s.bal cm d < x then none else
+  some { s with bal := upd2 s.bal cm d (s.bal cm d - x), supply := upd1 s.supply d (s.supply d - x),
+                extSupply := upd1 s.extSupply d (s.extSupply d - x),
+                redeem := upd2 s.redeem app d (s.redeem app d - x) }
+
+/-- `MsgCollateralRedemption` (keeper.go:182-268), the debt side: the holder's `x` coins are sent to the esm account and
+burnt there, and taken off the register; refused when nothing is registered or `x` exceeds it. (The collateral paid out
+comes from the esm account, not from vault custody.) -/
+def esmBurn (s : State) (from_ app d : Nat) (x : Int) : Option State :=
+  if x ≤ 0 ∨ s.redeem app d = 0 ∨ x > s.redeem app d ∨ from_ = vm ∨ s.bal from_ d < x then none else
+  some { s with bal := upd2 s.bal from_ d (s.bal from_ d - x), supply := upd1 s.supply d (s.supply d - x),
+                extSupply := upd1 s.extSupply d (s.extSupply d - x),
+                redeem := upd2 s.redeem app d (s.redeem app d - x) }
+
 /-- the product a message refers to (for `interestCalc` / `seize`: the product of the named vault) -/
 def Msg.product (s : State) : Msg → Option Nat
   | .create _ _ pr _ _ | .deposit _ _ pr _ _ | .withdraw _ _ pr _ _ | .draw _ _ pr _ _ | .repay _ _ pr _ _
@@ -484,7 +542,9 @@ def Msg.product (s : State) : Msg → Option Nat
   | .stableWithdraw _ _ pr _ _ => some pr
   | .interestCalc _ v | .seize v => (findVault s v).map (·.product)
   | .settle v | .settle1 v => (s.locked.find? (·.vaultId = v)).map (·.product)
-  | .donate .. | .fund .. => none
+  | .esmVault v => (findVault s v).map (·.product)
+  | .esmStable v => (findStable s v).map (·.product)
+  | .donate .. | .fund .. | .esmCollector .. | .esmBurn .. => none
 
 def stepP (s : State) (p : Product) (e : Env) : Msg → Option State
   | .create f a pr i o => create s p e f a pr i o
@@ -503,6 +563,10 @@ def stepP (s : State) (p : Product) (e : Env) : Msg → Option State
   | .fund t d x => fund s t d x
   | .settle v => settle s p v
   | .settle1 v => settle1 s p v
+  | .esmVault v => esmVault s p e v
+  | .esmStable v => esmStable s p e v
+  | .esmCollector a d x => esmCollector s a d x
+  | .esmBurn f a d x => esmBurn s f a d x
 
 /-- one message; `cfg` is the static product configuration (extended pair vaults). A message naming an unknown
 product is rejected (`ErrorExtendedPairVaultDoesNotExists`). -/
@@ -510,6 +574,8 @@ def step (cfg : Nat → Option Product) (s : State) (e : Env) (m : Msg) : Option
   match m with
   | .donate f d x => donate s f d x
   | .fund t d x => fund s t d x
+  | .esmCollector a d x => esmCollector s a d x
+  | .esmBurn f a d x => esmBurn s f a d x
   | _ =>
     match m.product s with
     | none => none
